@@ -57,6 +57,11 @@ def cases(tier, seed):
             yield {"kind": "svgp", "strategy": "CiqVariationalStrategy", "dist": dist, "zbatch": [], "pbatch": [], "dbatch": [], "mn": [26, 5], "wellcond": True, "seed": rnd.randrange(10**6)}
         for dist in DISTS[:3]:
             yield {"kind": "svgp", "strategy": "CiqVariationalStrategy", "dist": "NaturalVariationalDistribution" if dist == DISTS[0] else dist, "zbatch": [], "pbatch": [], "dbatch": [], "seed": rnd.randrange(10**6)}
+        for strat in ("VariationalStrategy", "UnwhitenedVariationalStrategy"):
+            yield {"kind": "aliasing", "strategy": strat, "seed": rnd.randrange(10**6)}
+        # the exact (Cholesky) treatment of K_ZZ asked for by fast_computations(log_prob=False), with more inducing points than max_cholesky_size
+        for strat, dist in itertools.product(["VariationalStrategy", "UnwhitenedVariationalStrategy"], DISTS[:2]):
+            yield {"kind": "svgp", "strategy": strat, "dist": dist, "zbatch": [], "pbatch": [], "dbatch": [], "mn": [7, 5], "env": "logprob_off_above_cholesky_size", "seed": rnd.randrange(10**6)}
         for dist, bb, M in itertools.product(DISTS, [[], [2]], [1, 4]):
             yield {"kind": "init_from_prior", "dist": dist, "batch": bb, "M": M, "seed": rnd.randrange(10**6)}
         for dist, dim in itertools.product(DISTS[:2], [-1]):
@@ -252,7 +257,7 @@ def run_case(case, ctx):
 
 
 def _dispatch(case, ctx, g):
-    return {"svgp": _svgp, "init_from_prior": _init_from_prior, "bdvs": _bdvs, "grid": _grid, "lmc": _multitask, "indep": _multitask, "identity": _identity, "same_qu": _same_qu, "orth": _orth}[case["kind"]](case, ctx, g)
+    return {"svgp": _svgp, "aliasing": _aliasing, "init_from_prior": _init_from_prior, "bdvs": _bdvs, "grid": _grid, "lmc": _multitask, "indep": _multitask, "identity": _identity, "same_qu": _same_qu, "orth": _orth}[case["kind"]](case, ctx, g)
 
 
 def _qu_unwhitened(case_strat, dist, vs, Kzz, mz, jit):
@@ -312,6 +317,8 @@ def _svgp(case, ctx, g):
     ref_mean_j, ref_cov_j = _closed_form(Kzz, Kxz, Kxx, mz, mx, mu_j, Su_j, jit, jit if strat != "UnwhitenedVariationalStrategy" else 0.0)
     ref_mean_0, ref_cov_0 = _closed_form(Kzz, Kxz, Kxx, mz, mx, mu_0, Su_0, 0.0, 0.0)
     ctxs = [S.num_contour_quadrature(40), S.minres_tolerance(1e-10), S.cg_tolerance(1e-10), S.max_cg_iterations(2000)] if ciq else []
+    if case.get("env") == "logprob_off_above_cholesky_size":
+        ctxs = [S.fast_computations(log_prob=False), S.max_cholesky_size(3)]
     import contextlib
 
     with contextlib.ExitStack() as st, torch.no_grad():
@@ -413,6 +420,33 @@ def _svgp(case, ctx, g):
         ctx.close("qf_train_variance", o3.variance, dj3.expand(o3.variance.shape), tol, cls=cls + ":train_var:no_grad_after_update", alt=d03.expand(o3.variance.shape), strategy=strat, dist=dist)
         m.eval()
     ctx.cell({k: v for k, v in case.items() if k != "seed"}, nontrivial=nontriv)
+
+
+def _aliasing(case, ctx, g):
+    """the inducing points a strategy holds are its own copy of the tensor it was given: two strategies built from one tensor
+    do not share them, moving one model's inducing points (in place, as an optimiser does) moves neither the other model's
+    nor the caller's tensor, and the other model's q(f) stays the closed form of ITS parameters"""
+    import torch
+
+    import gpytorch
+    from vf import util
+
+    strat, dist = case["strategy"], "CholeskyVariationalDistribution"
+    Zc = util.randn(g, M_, D)
+    Z0 = Zc.clone()
+    a = _mk_model(strat, dist, [], [], g, Z=Zc)
+    b = _mk_model(strat, dist, [], [], g, Z=Zc)
+    X = util.randn(g, N_, D)
+    with torch.no_grad():
+        b.eval()
+        before = b(X)
+        bm, bc = before.mean.clone(), before.covariance_matrix.clone()
+        a.variational_strategy.inducing_points.add_(0.3)  # what an optimiser step on model a does
+        after = b(X)
+    ctx.expect("inducing_points_are_a_copy", bool(torch.equal(Zc, Z0)), "the caller's tensor changed when a model's inducing points were moved", strategy=strat)
+    ctx.expect("inducing_points_are_a_copy", bool(torch.equal(b.variational_strategy.inducing_points.detach(), Z0)), "model b's inducing points moved with model a's (both were built from one tensor)", strategy=strat)
+    ctx.close("inducing_points_are_a_copy", torch.cat([after.mean, after.covariance_matrix.reshape(-1)]), torch.cat([bm, bc.reshape(-1)]), (1e-12, 1e-12), cls="aliasing:" + strat[:6])
+    ctx.cell({k: v for k, v in case.items() if k != "seed"})
 
 
 def _init_from_prior(case, ctx, g):
